@@ -27,6 +27,15 @@ class ParamGen:
         self.allow = allow
         self.kinds_used: set[str] = set()
 
+    def _cfg(self, fn):
+        """A configuration value (axis of a same-shape operator, bounds, constants): drawn from the
+        main stream, and -- when structurally identical copies must differ in configuration only --
+        re-drawn from the separate stream (the main stream advances identically either way)."""
+        v = fn(self.rng)
+        if self.index_rng is not None:
+            v = fn(self.index_rng)
+        return v
+
     # leaves
     def leaf(self, shape, positive):
         rng = self.rng
@@ -35,7 +44,7 @@ class ParamGen:
         if positive:
             return P.Parameter.from_input(P.TensorParameter(*shape, initializer=UniformInitializer(0.3, 2.0)))
         if rng.random() < 0.2:
-            v = np.random.default_rng(rng.getrandbits(32)).normal(size=shape)
+            v = np.random.default_rng(self._cfg(lambda r: r.getrandbits(32))).normal(size=shape)
             self.kinds_used.add("ConstantParameter")
             return P.Parameter.from_input(P.ConstantParameter(*shape, value=v))
         return P.Parameter.from_input(P.TensorParameter(*shape, initializer=NormalInitializer()))
@@ -128,16 +137,20 @@ class ParamGen:
         if op == "sigmoid":
             return P.Parameter.from_unary(P.SigmoidParameter(shape), sub(shape, False))
         if op == "scaled_sigmoid":
-            lo = round(rng.uniform(0.05, 0.5), 3)
-            return P.Parameter.from_unary(P.ScaledSigmoidParameter(shape, vmin=lo, vmax=lo + round(rng.uniform(0.5, 2.0), 3)), sub(shape, False))
+            lo = self._cfg(lambda r_: round(r_.uniform(0.05, 0.5), 3))
+            wd = self._cfg(lambda r_: round(r_.uniform(0.5, 2.0), 3))
+            return P.Parameter.from_unary(P.ScaledSigmoidParameter(shape, vmin=lo, vmax=lo + wd), sub(shape, False))
         if op == "clamp":
             if positive:
                 return P.Parameter.from_unary(P.ClampParameter(shape, vmin=0.1), sub(shape, False))
-            choice = rng.randrange(3)
+            choice = self._cfg(lambda r_: r_.randrange(3))
             kw = [dict(vmin=-0.3), dict(vmax=0.4), dict(vmin=-0.5, vmax=0.5)][choice]
             return P.Parameter.from_unary(P.ClampParameter(shape, **kw), sub(shape, False))
         if op == "conjugate":
             return P.Parameter.from_unary(P.ConjugateParameter(shape), sub(shape))
+        if op in ("softmax", "log_of_softmax", "logsoftmax"):  # same-shape operators: the axis is pure configuration
+            ax = self._cfg(lambda r_: r_.randrange(r))
+            ax_arg = ax if self._cfg(lambda r_: r_.random()) < 0.5 else ax - r
         if op == "softmax":
             return P.Parameter.from_unary(P.SoftmaxParameter(shape, axis=ax_arg), sub(shape, False))
         if op == "log_of_softmax":  # the composition the optimiser rewrites into LogSoftmax
